@@ -16,7 +16,7 @@ RULE = ("argparse programs generated over the feature alphabet {positionals with
         "argument_default/conflict_handler overrides, falsy ones included), mutually exclusive groups (required or not, inside a "
         "group or not), set_defaults before/after, parents=[1-2 stdlib or simple_parsing parsers with options, positionals, "
         "set_defaults], parser keywords add_help/prefix_chars/argument_default/conflict_handler/allow_abbrev} declared on a "
-        "simple_parsing.ArgumentParser that also carries one of 11 dataclass forests (none, one class, nested, same class at two "
+        "simple_parsing.ArgumentParser that also carries one of 14 dataclass forests (none, one class, nested, a class with a POSITIONAL field at an underscored destination under the default / DASH / UNDERSCORE_AND_DASH dash variants, same class at two "
         "destinations under AUTO and ALWAYS_MERGE, required/Optional/List fields, init=False and cmd=False fields, subgroups, "
         "default=SUPPRESS, destination colliding with a plain dest / with a set_defaults entry) and on an argparse.ArgumentParser "
         "twin that receives copies of the generated actions; argv = shuffled token groups, valid and invalid, of both worlds plus "
